@@ -176,7 +176,7 @@ Sel2Scen(pk) ==
                                       IF pk.cnt1 THEN OpLit("ge", s_0) ELSE Op("unconditionalMatch", << >>, FALSE), FALSE, << >>)>>)>>, pk.rq, "On")
 
 \* the last list returns to an earlier value on its way ("x" -> "X" -> "x") before a step that tells the values apart
-OpTfs == {<< >>, <<"lowercase">>, <<"trim", "lowercase">>, <<"removeWhitespace", "uppercase">>, <<"length">>, <<"uppercase", "lowercase", "hexEncode">>}
+OpTfs == {<< >>, <<"hexDecode", "lowercase">>, <<"lowercase">>, <<"trim", "lowercase">>, <<"removeWhitespace", "uppercase">>, <<"length">>, <<"uppercase", "lowercase", "hexEncode">>}
 s_78 == <<55, 56>>     \* hexEncode("x")
 OpOps == {OpLit("streq", s_x), OpLit("contains", s_x), OpLit("beginsWith", s_x), OpLit("endsWith", s_X),
           OpLit("eq", s_1), OpLit("ge", s_2), OpLit("lt", s_2), OpLit("rx", s_x), OpLit("streq", s_78), OpLit("streq", s_0)}
